@@ -371,7 +371,7 @@ def run(chk, replay=None):
     if p_corr:
         broken.append("correspondence Lasp.connect_application vs Processor differs on %d cases, e.g. %s"
                       % (len(p_corr), json.dumps([{"case": cases[i], "observed": obs[i]} for i in p_corr[:2]])))
-    if broken and not chk.violations and not chk.known_hits:
+    if broken and not chk.violations:
         chk.fail("broken.txt", "\n\n".join(broken), no_input=True)
     chk.assumptions += ["encoding/json decodes the policy maps (one entry per distinct key)",
                         "mock collector.Client: the collector's answers are scripted; request bodies are parsed from the bytes handed to the client"]
